@@ -46,6 +46,7 @@ fn run<K: Kern<D>, const D: usize>(case: &Case, log: &mut CaseLog) {
     }
     let mut nontrivial = false;
     let mut stop = false;
+    let mut injected_removals = 0u32;
     for (step, op) in ops.iter().enumerate() {
         // classification of the target before the call
         let mut target_info = (false, false, 0usize); // (on_hull, simplex_star, star size)
@@ -71,6 +72,48 @@ fn run<K: Kern<D>, const D: usize>(case: &Case, log: &mut CaseLog) {
         } else {
             false
         };
+        // forced internal failures of this removal (feature-gated failpoints, one at a time, on forks):
+        // whenever the call then reports Err the fork must be identical to the state before the call
+        if matches!(op, Op::Remove { unknown: false, .. }) && injected_removals < 2 && !before.verts.is_empty() {
+            injected_removals += 1;
+            let mut dry = w.fork();
+            delaunay::verif_failpoints::begin(None, 0);
+            let dry_ok = crate::driver::ctx::guarded(|| dry.apply(&before, op)).is_ok();
+            let rep = delaunay::verif_failpoints::end();
+            if dry_ok && rep.hits > 0 {
+                let stride = ((rep.hits + 11) / 12).max(1) as usize;
+                for k in (1..=rep.hits).step_by(stride) {
+                    for flavour in 0..2u8 {
+                        let mut e = w.fork();
+                        delaunay::verif_failpoints::begin(Some(k), flavour);
+                        let r = crate::driver::ctx::guarded(|| e.apply(&before, op));
+                        let fired = delaunay::verif_failpoints::end().fired;
+                        let (Some(site), Ok((res_e, out_e))) = (fired, r) else { continue };
+                        log.evals += 1;
+                        log.class(format!("inject:{site}"));
+                        nontrivial = true;
+                        if let Outcome::RemoveErr { error } = &out_e {
+                            let es = e.snap();
+                            let fe = e.fingerprint(&es);
+                            if fe != fp_before {
+                                log.violate(
+                                    Violation::new(ID, "changed_after_failed_removal", "remove_vertex", format!("step {step} ({}): with an internal failure forced at {site} (hit {k}/{}, flavour {flavour}) remove_vertex returned Err ({}) but the triangulation changed: {}", res_e.desc, rep.hits, error.chars().take(100).collect::<String>(), diff(&fp_before, &fe)))
+                                        .fact("dim", D as u64)
+                                        .fact("kernel", K::NAME)
+                                        .fact("injected", true)
+                                        .fact("site", site),
+                                );
+                            }
+                        } else {
+                            log.class("inject:absorbed");
+                        }
+                    }
+                }
+            }
+            if !log.violations.is_empty() {
+                break;
+            }
+        }
         let (res, out) = w.apply(&before, op);
         if matches!(out, Outcome::SetPanicked { .. }) {
             // debug_assert!(false) inside a policy setter (debug-assertion profile): C19's matter; the
@@ -162,8 +205,14 @@ fn run<K: Kern<D>, const D: usize>(case: &Case, log: &mut CaseLog) {
                         log.violate(mk("unknown_vertex_changed_state", format!("removing an unknown vertex changed the triangulation: {}", diff(&fp_before, &fp_after))));
                     }
                 }
-                Outcome::RemoveErr { .. } => {
+                Outcome::RemoveErr { error } => {
+                    // "... or no change": a refused removal leaves everything as it was
                     log.class("removed:Err");
+                    nontrivial = true;
+                    let fp_after = w.fingerprint(&after);
+                    if fp_after != fp_before {
+                        log.violate(mk("changed_after_failed_removal", format!("remove_vertex returned Err ({}) but the triangulation changed: {}", error.chars().take(120).collect::<String>(), diff(&fp_before, &fp_after))).fact("injected", false));
+                    }
                 }
                 _ => {}
             }
